@@ -2,6 +2,7 @@ import Sx.Lemmas.SafeAll
 import Sx.Lemmas.Exec
 import Sx.Sys
 import Sx.Lemmas.ShadowSize
+import Sx.Lemmas.ShadowCbs
 import Sx.Props.C19
 /-
   C08 — memory safety for all air data, chip states and buffer sizes.
@@ -20,11 +21,15 @@ import Sx.Props.C19
     the size of the shadow arrays are preserved, also across application callbacks that call
     back into the API.
 
+  * the length passed to the receive callback never exceeds the buffer capacity, and the bytes it
+    announces are all inside the buffer (`CbLen`); that they are the bytes the chip stored *for
+    that packet* is the content of C03 (`rx_invocation`) and C05 (`C05_rx_done`), which describe
+    the delivered data exactly.
+
   What is *not* proved here and rests on the sanitizer builds (ASan/UBSan, five buffer sizes) of
   the correspondence check: that no float→integer conversion is out of range (`castRange`; for
   the beacon C14 proves it for all documented intervals, for frequency/bit rate/deviation C12
-  proves the value is in range), that the two chip-bounded polling loops terminate (`fuel`), and
-  that the length passed to the receive callback does not exceed the bytes stored.
+  proves the value is in range), and that the two chip-bounded polling loops terminate (`fuel`).
 -/
 namespace Sx
 open Sx.Model DM
@@ -32,14 +37,14 @@ open Sx.Model DM
 /-- **C08 (program level).** For every buffer size, every API call (other than `create`) started
     from a handle satisfying the invariant, whatever chip and bus answer. -/
 theorem C08_api_memory_safe (cap fuel : Nat) (a : Api) (hc : a.isCreate = false) (hl : a.ListsFit)
-    (h : Handle) (hh : HInv cap h) : (Api.prog cap fuel a h).Safe memBad (HInv cap) :=
+    (h : Handle) (hh : HInv cap h) : (Api.prog cap fuel a h).Safe memBad (CbLen cap) (HInv cap) :=
   (s_api fuel a hc hl).s h hh
 
 /-- `sx127x_create` from any memory content -/
 theorem C08_create_memory_safe (cap fuel : Nat) (h : Handle) :
-    (Api.prog cap fuel .create h).Safe memBad (HInv cap) := by
+    (Api.prog cap fuel .create h).Safe memBad (CbLen cap) (HInv cap) := by
   unfold Api.prog
-  show ((Model.create cap h).bind _).Safe memBad (HInv cap)
+  show ((Model.create cap h).bind _).Safe memBad (CbLen cap) (HInv cap)
   apply Prog.Safe_bind (s_create h)
   intro ⟨r, h'⟩ hi
   cases r <;> exact hi
@@ -57,68 +62,82 @@ theorem busReadBuf_len (w : World) (reg n : Nat) (d : List UInt8) (h : (w.busRea
     cases h
     exact readN_length _ _ _
 
-/-- no excluded undefined behaviour; handle invariant and shadow-array size are kept -/
-def SafeOut {β : Type} (bad : UB → Prop) (P : β → Prop) : Outcome β → Prop
-  | .done b w' => P b ∧ SzOk w'
+/-- every callback logged for the current operation satisfies `G` -/
+def CbsOk (G : CbEvent → Prop) (w : World) : Prop := ∀ r ∈ w.cbs, G r.ev
+
+theorem CbsOk_of_eq {G : CbEvent → Prop} {w w' : World} (e : w'.cbs = w.cbs) (h : CbsOk G w) : CbsOk G w' := by
+  unfold CbsOk; rw [e]; exact h
+
+/-- no excluded undefined behaviour; handle invariant and shadow-array size are kept; every
+    callback made so far satisfies `G` -/
+def SafeOut {β : Type} (bad : UB → Prop) (G : CbEvent → Prop) (P : β → Prop) : Outcome β → Prop
+  | .done b w' => P b ∧ SzOk w' ∧ CbsOk G w'
   | .ub u w' => ¬bad u ∧ SzOk w'
 
-/-- what an application reaction may do: it leaves a handle satisfying `I`, keeps the shadow
-    arrays' size, and runs into no excluded undefined behaviour -/
-def CbOk (bad : UB → Prop) (I : Handle → Prop) (onCb : CbEvent → Handle → World → Outcome Handle) : Prop :=
-  ∀ e h w, I h → SzOk w → SafeOut bad I (onCb e h w)
+/-- what an application reaction may do: given a callback the driver was entitled to make, it
+    leaves a handle satisfying `I`, keeps the shadow arrays' size, logs the callback, and runs into
+    no excluded undefined behaviour -/
+def CbOk (bad : UB → Prop) (G : CbEvent → Prop) (I : Handle → Prop) (onCb : CbEvent → Handle → World → Outcome Handle) : Prop :=
+  ∀ e h w, G e → I h → SzOk w → CbsOk G w → SafeOut bad G I (onCb e h w)
 
 /-- **a safe program within the SPI contract executes safely**, in either build, from any world
     whose shadow arrays have their size (any chip, cache content, schedule of environment events,
     set of failing transfers): no excluded undefined behaviour — accesses outside the shadow
-    arrays included — and the handle invariant and the array size are kept -/
-theorem execG_safe {α : Type} (bad : UB → Prop) (I : Handle → Prop) (cached : Bool)
-    (onCb : CbEvent → Handle → World → Outcome Handle) (hcb : CbOk bad I onCb)
-    (p : Prog (Except Code α × Handle)) (hp : p.Safe bad I) (hall : p.All ContractReq) (w : World) (hs : SzOk w) :
-    SafeOut bad (fun rh => I rh.2) (execG cached onCb p w) := by
+    arrays included —, the handle invariant and the array size are kept, and every callback the
+    application sees satisfies `G` -/
+theorem execG_safe {α : Type} (bad : UB → Prop) (G : CbEvent → Prop) (I : Handle → Prop) (cached : Bool)
+    (onCb : CbEvent → Handle → World → Outcome Handle) (hcb : CbOk bad G I onCb)
+    (p : Prog (Except Code α × Handle)) (hp : p.Safe bad G I) (hall : p.All ContractReq) (w : World) (hs : SzOk w)
+    (hg : CbsOk G w) :
+    SafeOut bad G (fun rh => I rh.2) (execG cached onCb p w) := by
   induction p generalizing w with
-  | ret a => exact ⟨hp, hs⟩
+  | ret a => exact ⟨hp, hs, hg⟩
   | ub u => exact ⟨hp, hs⟩
   | sread reg n k ih =>
     simp only [execG]
     obtain ⟨r, w', he, hs'⟩ := sread_sz (cached := cached) hs reg n hall.1
-    rw [he]; exact ih r (hp r) (hall.2 r) w' hs'
+    rw [he]; exact ih r (hp r) (hall.2 r) w' hs' (CbsOk_of_eq (sread_cbs he) hg)
   | rread reg k ih =>
     simp only [execG]
     obtain ⟨r, w', he, hs'⟩ := rread_sz (cached := cached) hs reg hall.1
-    rw [he]; exact ih r (hp r) (hall.2 r) w' hs'
+    rw [he]; exact ih r (hp r) (hall.2 r) w' hs' (CbsOk_of_eq (rread_cbs he) hg)
   | swrite reg d k ih =>
     simp only [execG]
     obtain ⟨r, w', he, hs'⟩ := swrite_sz (cached := cached) hs reg d hall.1
-    rw [he]; exact ih r (hp r) (hall.2 r) w' hs'
+    rw [he]; exact ih r (hp r) (hall.2 r) w' hs' (CbsOk_of_eq (swrite_cbs he) hg)
   | bwrite reg d k ih =>
     simp only [execG]
     obtain ⟨r, w', he, hs'⟩ := bwrite_sz (cached := cached) hs reg d hall.1
-    rw [he]; exact ih r (hp r) (hall.2 r) w' hs'
+    rw [he]; exact ih r (hp r) (hall.2 r) w' hs' (CbsOk_of_eq (bwrite_cbs he) hg)
   | bread reg n k ih =>
     simp only [execG]
     have hl := busReadBuf_len w reg n
     have hc := busReadBuf_cache w reg n
-    generalize w.busReadBuf reg n = br at hl hc
+    have hk := busReadBuf_cbs w reg n
+    generalize w.busReadBuf reg n = br at hl hc hk
     obtain ⟨r, w'⟩ := br
     exact ih r (hp r (fun d e => hl d e)) (hall.2 r) w' (by unfold SzOk; rw [show w'.cache = w.cache from hc]; exact hs)
+      (CbsOk_of_eq hk hg)
   | rawbread reg n k ih =>
     simp only [execG]
     have hl := busReadBuf_len w reg n
     have hc := busReadBuf_cache w reg n
-    generalize w.busReadBuf reg n = br at hl hc
+    have hk := busReadBuf_cbs w reg n
+    generalize w.busReadBuf reg n = br at hl hc hk
     obtain ⟨r, w'⟩ := br
     exact ih r (hp r (fun d e => hl d e)) (hall.2 r) w' (by unfold SzOk; rw [show w'.cache = w.cache from hc]; exact hs)
+      (CbsOk_of_eq hk hg)
   | callback e h k ih =>
     simp only [execG]
-    have hc := hcb e h w hp.1 hs
+    have hc := hcb e h w hp.1.1 hp.1.2 hs hg
     cases ho : onCb e h w with
-    | done h' w' => rw [ho] at hc; exact ih h' (hp.2 h' hc.1) (hall h') w' hc.2
+    | done h' w' => rw [ho] at hc; exact ih h' (hp.2 h' hc.1) (hall h') w' hc.2.1 hc.2.2
     | ub u w' => rw [ho] at hc; exact hc
 
 /-! ### the whole system: any history, re-entrant callbacks -/
 
 theorem api_safe (cap fuel : Nat) (a : Api) (hl : a.ListsFit) (h : Handle)
-    (hh : a.isCreate = false → HInv cap h) : (Api.prog cap fuel a h).Safe memBad (HInv cap) := by
+    (hh : a.isCreate = false → HInv cap h) : (Api.prog cap fuel a h).Safe memBad (CbLen cap) (HInv cap) := by
   cases hc : a.isCreate with
   | false => exact C08_api_memory_safe cap fuel a hc hl h (hh hc)
   | true =>
@@ -138,17 +157,23 @@ def SysCfg.Fits (c : SysCfg) : Prop :=
 def startWorld (w : World) (sched : List (Nat × Env)) (faults : List (Nat × Code)) (k : Cache) : World :=
   { w with xfer := 0, sched := sched, faults := faults, bus := [], cbs := [], cache := k }
 
-theorem logCb_ok (bad : UB → Prop) (I : Handle → Prop) : CbOk bad I logCb := fun _ _ _ hi hs => ⟨hi, hs⟩
+theorem logCb_ok (bad : UB → Prop) (G : CbEvent → Prop) (I : Handle → Prop) : CbOk bad G I logCb := by
+  intro e h w hg hi hs hc
+  refine ⟨hi, hs, ?_⟩
+  intro r hr
+  rcases List.mem_cons.mp hr with e' | e'
+  · rw [e']; exact hg
+  · exact hc r e'
 
-theorem onCb_ok (c : SysCfg) (hc : c.Fits) (hv : c.Valid) : CbOk memBad (HInv c.cap) c.toCfg.onCb := by
-  intro e h w hh hsz
+theorem onCb_ok (c : SysCfg) (hc : c.Fits) (hv : c.Valid) : CbOk memBad (CbLen c.cap) (HInv c.cap) c.toCfg.onCb := by
+  intro e h w hge hh hsz hcbs
   unfold Cfg.onCb
   cases hr : c.toCfg.reactionFor e with
-  | none => exact ⟨hh, hsz⟩
+  | none => exact logCb_ok _ _ _ e h w hge hh hsz hcbs
   | some re =>
     simp only
     have key : ∀ o : Option Api, (∀ a, o = some a → a.ListsFit) → (∀ a, o = some a → a.Valid) → c.reaction o = some re →
-        (re.run h).Safe memBad (HInv c.cap) ∧ (re.run h).All ContractReq := by
+        (re.run h).Safe memBad (CbLen c.cap) (HInv c.cap) ∧ (re.run h).All ContractReq := by
       intro o hval hvalid ho
       cases o with
       | none => simp [SysCfg.reaction] at ho
@@ -158,15 +183,22 @@ theorem onCb_ok (c : SysCfg) (hc : c.Fits) (hv : c.Valid) : CbOk memBad (HInv c.
         · cases ho
         · cases ho
           exact ⟨api_safe c.cap c.fuel api (hval api rfl) h (fun _ => hh), (contract_api c.cap c.fuel api (hvalid api rfl)).all h⟩
-    have hall : (re.run h).Safe memBad (HInv c.cap) ∧ (re.run h).All ContractReq := by
+    have hall : (re.run h).Safe memBad (CbLen c.cap) (HInv c.cap) ∧ (re.run h).All ContractReq := by
       cases e with
       | rx d l => exact key c.onRx hc.1 hv.1 hr
       | tx => exact key c.onTx hc.2.1 hv.2.1 hr
       | cad d => exact key c.onCad hc.2.2 hv.2.2 hr
-    have := execG_safe memBad (HInv c.cap) c.toCfg.cached logCb (logCb_ok _ _) (re.run h) hall.1 hall.2 w hsz
+    have := execG_safe memBad (CbLen c.cap) (HInv c.cap) c.toCfg.cached logCb (logCb_ok _ _ _) (re.run h) hall.1 hall.2 w hsz hcbs
     unfold exec0
     cases hx : execG c.toCfg.cached logCb (re.run h) w with
-    | done a w' => rw [hx] at this; obtain ⟨r, h'⟩ := a; exact ⟨this.1, this.2⟩
+    | done a w' =>
+      rw [hx] at this
+      obtain ⟨r, h'⟩ := a
+      refine ⟨this.1, this.2.1, ?_⟩
+      intro rec hrec
+      rcases List.mem_cons.mp hrec with e' | e'
+      · rw [e']; exact hge
+      · exact this.2.2 rec e'
     | ub u w' => rw [hx] at this; exact this
 
 /-- the handle of a system, if there is one, satisfies the invariant, and the shadow arrays have
@@ -175,22 +207,29 @@ def SysInv (cap : Nat) (s : Sys) : Prop := (∀ h, s.handle = some h → HInv ca
 
 theorem fresh_sz : Cache.fresh.size = 0x71 := Cache.fresh_wf.hs
 
+/-- what an observation may show: no excluded undefined behaviour, and every receive callback
+    with a length within the packet buffer and all of its bytes inside it -/
+def ObsOk (cap : Nat) : Obs → Prop
+  | .ub u => ¬memBad u
+  | .ret _ cbs _ => ∀ r ∈ cbs, CbLen cap r.ev
+  | _ => True
+
 /-- **C08 (one operation).** In either build (cache on/off), for every packet-buffer size, any
     chip content, any environment schedule, any set of failing transfers, any application
     reaction inside the callbacks: the operation has none of the excluded undefined behaviours
     — every kind the model knows except an out-of-range float conversion and exhausted loop
-    fuel; accesses outside the shadow arrays included —, and handle and shadow arrays keep their
-    invariants. -/
+    fuel; accesses outside the shadow arrays included —, every receive callback it makes has a
+    length within the packet buffer, and handle and shadow arrays keep their invariants. -/
 theorem C08_step (c : SysCfg) (hc : c.Fits) (hv : c.Valid) (s : Sys) (hs : SysInv c.cap s) (op : Op)
     (hop : op.Fits) (hov : op.Valid) :
-    SysInv c.cap (s.step c op).1 ∧ ∀ u, (s.step c op).2 = .ub u → ¬memBad u := by
+    SysInv c.cap (s.step c op).1 ∧ ObsOk c.cap (s.step c op).2 := by
   cases op with
-  | env e => exact ⟨⟨hs.1, hs.2⟩, fun u hu => by simp [Sys.step] at hu⟩
+  | env e => exact ⟨⟨hs.1, hs.2⟩, trivial⟩
   | api a sched faults =>
     unfold Sys.step
     dsimp only
     split
-    · exact ⟨hs, fun u hu => by cases hu⟩
+    · exact ⟨hs, trivial⟩
     · rename_i hgate
       have hh : a.isCreate = false → HInv c.cap (s.handle.getD {}) := by
         intro hcr
@@ -203,32 +242,47 @@ theorem C08_step (c : SysCfg) (hc : c.Fits) (hv : c.Valid) (s : Sys) (hs : SysIn
         split
         · exact fresh_sz
         · exact hs.2
-      have := execG_safe memBad (HInv c.cap) c.toCfg.cached c.toCfg.onCb (onCb_ok c hc hv) _
-        (api_safe c.cap c.fuel a hop (s.handle.getD {}) hh) ((contract_api c.cap c.fuel a hov).all _) _ hsz0
+      have hcb0 : CbsOk (CbLen c.cap) (startWorld s.world sched faults (if a.isCreate then Cache.fresh else s.world.cache)) := by
+        intro r hr; cases hr
+      have := execG_safe memBad (CbLen c.cap) (HInv c.cap) c.toCfg.cached c.toCfg.onCb (onCb_ok c hc hv) _
+        (api_safe c.cap c.fuel a hop (s.handle.getD {}) hh) ((contract_api c.cap c.fuel a hov).all _) _ hsz0 hcb0
       unfold exec
       generalize hout : execG c.toCfg.cached c.toCfg.onCb (Api.prog c.cap c.fuel a (s.handle.getD {})) _ = out
-      have this' : SafeOut memBad (fun rh => HInv c.cap rh.2) out := by rw [← hout]; exact this
+      have this' : SafeOut memBad (CbLen c.cap) (fun rh => HInv c.cap rh.2) out := by rw [← hout]; exact this
       cases out with
-      | ub u w => exact ⟨⟨hs.1, this'.2⟩, fun u' hu' => by cases hu'; exact this'.1⟩
+      | ub u w => exact ⟨⟨hs.1, this'.2⟩, this'.1⟩
       | done rh w =>
         obtain ⟨r', h⟩ := rh
-        exact ⟨⟨fun h' e => by cases e; exact this'.1, this'.2⟩, fun u hu => by cases hu⟩
+        refine ⟨⟨fun h' e => by cases e; exact this'.1, this'.2.1⟩, ?_⟩
+        intro r hr
+        exact this'.2.2 r (List.mem_reverse.mp hr)
 
 /-- **C08.** The same for every history. -/
 theorem C08_memory_safe (c : SysCfg) (hc : c.Fits) (hv : c.Valid) (s : Sys) (hs : SysInv c.cap s) (ops : List Op)
     (hops : ∀ op ∈ ops, op.Fits ∧ op.Valid) :
-    SysInv c.cap (Sys.run c s ops).1 ∧ ∀ u, Obs.ub u ∈ (Sys.run c s ops).2 → ¬memBad u := by
+    SysInv c.cap (Sys.run c s ops).1 ∧ ∀ o ∈ (Sys.run c s ops).2, ObsOk c.cap o := by
   induction ops generalizing s with
-  | nil => exact ⟨hs, fun u hu => by cases hu⟩
+  | nil => exact ⟨hs, fun o ho => by cases ho⟩
   | cons op ops ih =>
     have hopv := hops op (List.mem_cons_self ..)
     have h1 := C08_step c hc hv s hs op hopv.1 hopv.2
     have h2 := ih (s.step c op).1 h1.1 (fun o ho => hops o (List.mem_cons_of_mem _ ho))
     simp only [Sys.run]
-    refine ⟨h2.1, fun u hu => ?_⟩
-    rcases List.mem_cons.mp hu with e | e
-    · exact h1.2 u e.symm
-    · exact h2.2 u e
+    refine ⟨h2.1, fun o ho => ?_⟩
+    rcases List.mem_cons.mp ho with e | e
+    · rw [e]; exact h1.2
+    · exact h2.2 o e
+
+/-- **C08, callback length.** In every history, every receive callback the application sees has a
+    length that does not exceed the packet buffer, and the `data` it is handed holds exactly that
+    many bytes of the buffer. -/
+theorem C08_callback_length (c : SysCfg) (hc : c.Fits) (hv : c.Valid) (s : Sys) (hs : SysInv c.cap s) (ops : List Op)
+    (hops : ∀ op ∈ ops, op.Fits ∧ op.Valid) (r : Except Code Out) (cbs : List CbRec) (bus : List BusEv)
+    (ho : Obs.ret r cbs bus ∈ (Sys.run c s ops).2) (rec : CbRec) (hrec : rec ∈ cbs) (d : List UInt8) (n : Nat)
+    (he : rec.ev = .rx d n) : n ≤ c.cap ∧ d.length = n := by
+  have := (C08_memory_safe c hc hv s hs ops hops).2 _ ho rec hrec
+  rw [he] at this
+  exact this
 
 /-- the fresh system (no handle yet, shadow arrays as `sx127x_create` leaves them) satisfies the
     invariant for every buffer size -/
@@ -239,6 +293,9 @@ theorem sysInv_fresh (cap : Nat) (chip : Chip) : SysInv cap { world := { chip :=
 /-- non-vacuity: the excluded classes are inhabited by requests the model does make — a buffer
     access outside `packet` is a node the model can reach (`memBad .oobPacket`), and a concrete
     history delivers a packet through the guarded copy -/
+example : ¬CbLen 16 (.rx (List.replicate 16 0) 200) ∧ CbLen 16 (.rx [1, 2, 3] 3) ∧ CbLen 16 .tx := by
+  refine ⟨fun h => absurd h.1 (by decide), ⟨by decide, rfl⟩, trivial⟩
+
 example : memBad .oobPacket ∧ memBad .oobShadow ∧ memBad .oobCaller ∧ memBad .nullDeref ∧ memBad .divZero ∧ memBad .shiftNeg := by decide
 
 end Sx
